@@ -1,4 +1,5 @@
 import MosdnsVerif.Model.C07
+import MosdnsVerif.Model.C07R
 import MosdnsVerif.Lemmas.C07Locks
 import MosdnsVerif.Model.C09
 import MosdnsVerif.Props.C09
@@ -9,7 +10,7 @@ import MosdnsVerif.Gen.Facts
 # C07 — exchanges always terminate; Close releases everything
 -/
 namespace Props.C07
-open Model.C07 Lemmas.C07Locks
+open Model.C07 Model.C07R Lemmas.C07Locks
 
 /-! ## Part A: a parked caller is always covered by the short read deadline -/
 
@@ -215,6 +216,300 @@ theorem late_reservation_not_blocked (max : Nat) (ls : List LLabel) (s : Lazy) (
   simp only [Lazy.step, hd, this, ↓reduceIte]
   exact ⟨_, rfl⟩
 
+/-! ## Part C: the read deadline of the non-pipelined (reused) connection -/
+
+theorem safeRest_of_no_setIdle : ∀ (l : List RAct), RAct.setIdle ∉ l → safeRest l = true
+  | [], _ => rfl
+  | a :: t, h => by
+    have ha : a ≠ .setIdle := fun e => h (by simp [e])
+    have ht : RAct.setIdle ∉ t := fun e => h (by simp [e])
+    cases a <;> first | exact absurd rfl ha | exact safeRest_of_no_setIdle t ht
+
+theorem safeRest_head_setIdle (t : List RAct) (h : safeRest (.setIdle :: t) = true) : RAct.setIdleDl ∉ t ∧ RAct.setIdle ∉ t := by
+  simp only [safeRest, Bool.and_eq_true, Bool.not_eq_true', List.contains_eq_mem, decide_eq_false_iff_not] at h
+  exact h
+
+theorem safeRest_tail (a : RAct) (t : List RAct) (h : safeRest (a :: t) = true) : safeRest t = true := by
+  cases a
+  case setIdle => exact safeRest_of_no_setIdle t (safeRest_head_setIdle t h).2
+  all_goals exact h
+
+theorem rconn_init_inv : ({} : RConn).Inv := by
+  constructor <;> simp [safeRest]
+
+theorem rconn_inv_step (ord : List RAct) (ho : safeRest ord = true) (s s' : RConn) (l : RLabel) (hi : s.Inv)
+    (hs : s.step ord l = some s') : s'.Inv := by
+  obtain ⟨h1, h2, h3, h4, h5⟩ := hi
+  cases l <;> simp only [RConn.step] at hs
+  case callerTake =>
+    split at hs
+    · rename_i hc; cases hs
+      obtain ⟨hp, hc0, _⟩ := hc
+      refine ⟨h1, fun h => by simp at h, fun h => ?_, fun _ => (h2 hp).1, fun h => by simp at h⟩
+      have := (h3 h).1; rw [hp] at this; cases this
+    · cases hs
+  case callerInstall =>
+    split at hs
+    · rename_i hc; cases hs
+      refine ⟨h1, fun h => ?_, fun h => ?_, fun _ => h4 (by omega), fun h => by simp at h⟩
+      · have := (h2 h).2.2; omega
+      · have := (h3 h).2.1; omega
+    · cases hs
+  case callerArm =>
+    split at hs
+    · rename_i hc; cases hs
+      refine ⟨h1, fun h => ?_, fun h => ?_, fun _ => h4 (by omega), fun _ => rfl⟩
+      · have := (h2 h).2.2; omega
+      · have := (h3 h).2.1; omega
+    · cases hs
+  case callerWrite =>
+    split at hs
+    · rename_i hc; cases hs
+      refine ⟨h1, fun h => ?_, fun h => ?_, fun _ => h4 (by omega), fun _ => h5 (by omega)⟩
+      · have := (h2 h).2.2; omega
+      · have := (h3 h).2.1; omega
+    · cases hs
+  case callerLeave =>
+    split at hs
+    · rename_i hc; cases hs
+      refine ⟨h1, fun h => ?_, fun h => ?_, fun h => by simp at h, fun h => by simp at h⟩
+      · have := (h2 h).2.2; omega
+      · have := (h3 h).2.1; omega
+    · cases hs
+  case readerGot =>
+    split at hs
+    · rename_i hc; cases hs
+      obtain ⟨_, hw, _, _⟩ := hc
+      have hnp : s.pooled = false := by
+        cases hp : s.pooled with
+        | false => rfl
+        | true => have := (h2 hp).2.1; rw [hw] at this; cases this
+      exact ⟨ho, fun h => by simp [hnp] at h, fun _ => ⟨hnp, rfl, rfl⟩, fun h => by simp at h, fun h => by simp at h⟩
+    · cases hs
+  case readerAct =>
+    cases hr : s.rest with
+    | nil => rw [hr] at hs; cases hs
+    | cons a t =>
+      rw [hr] at hs h1 h2 h3 h4
+      simp only [Option.some.injEq] at hs
+      subst hs
+      have hst := safeRest_tail a t h1
+      cases a <;> simp only [RConn.act]
+      case setIdleDl =>
+        refine ⟨hst, fun h => ?_, fun h => h3 (List.mem_cons_of_mem _ h), fun h => ?_, fun h => ?_⟩
+        · exact absurd (List.mem_cons_self) (h2 h).1
+        · exact absurd (List.mem_cons_self) (h4 h)
+        · exact absurd (List.mem_cons_self) (h4 (by have h' : s.cpc ≥ 3 := h; omega))
+      case setIdle =>
+        obtain ⟨_, hc0, hw⟩ := h3 (List.mem_cons_self)
+        obtain ⟨hn1, hn2⟩ := safeRest_head_setIdle t h1
+        refine ⟨hst, fun _ => ⟨hn1, hw, hc0⟩, fun h => absurd h hn2, fun h => by have h' : s.cpc ≥ 1 := h; omega, fun h => by have h' : s.cpc ≥ 3 := h; omega⟩
+      case handOver =>
+        exact ⟨hst, fun h => ⟨fun m => (h2 h).1 (List.mem_cons_of_mem _ m), (h2 h).2⟩, fun h => h3 (List.mem_cons_of_mem _ h),
+          fun h m => h4 h (List.mem_cons_of_mem _ m), h5⟩
+      case other =>
+        exact ⟨hst, fun h => ⟨fun m => (h2 h).1 (List.mem_cons_of_mem _ m), (h2 h).2⟩, fun h => h3 (List.mem_cons_of_mem _ h),
+          fun h m => h4 h (List.mem_cons_of_mem _ m), h5⟩
+  case readerStray =>
+    split at hs
+    · cases hs; exact ⟨h1, fun h => by simp at h, fun h => by have := h3 h; exact ⟨rfl, this.2⟩, h4, h5⟩
+    · cases hs
+  case readerFail =>
+    split at hs
+    · rename_i hc; cases hs
+      refine ⟨h1, fun h => by simp at h, fun h => ?_, h4, h5⟩
+      simp only [hc] at h; cases h
+    · cases hs
+
+theorem rconn_inv_run (ord : List RAct) (ho : safeRest ord = true) (ls : List RLabel) :
+    ∀ (s s' : RConn), s.Inv → s.run ord ls = some s' → s'.Inv := by
+  induction ls with
+  | nil => intro s s' hi hr; simp only [RConn.run, Option.some.injEq] at hr; subst hr; exact hi
+  | cons l ls ih =>
+    intro s s' hi hr
+    simp only [RConn.run] at hr
+    cases hs : s.step ord l with
+    | none => rw [hs] at hr; cases hr
+    | some s1 => rw [hs] at hr; exact ih s1 s' (rconn_inv_step ord ho s s1 l hi hs) hr
+
+/-- **Non-pipelined connection: a query that was written and not answered is
+covered by the waiting-reply deadline, and the reader has no deadline call left
+to make**, for every order of the reader's actions in which the connection is
+made available once and no deadline call follows that, in every interleaving of
+the reader's pending actions with callers, replies, late replies and callers
+that give up. -/
+theorem reuse_parked_is_covered (ord : List RAct) (ho : safeRest ord = true) (ls : List RLabel) (s : RConn)
+    (hr : ({} : RConn).run ord ls = some s) (hp : s.cpc = 4) : s.dl = .short ∧ RAct.setIdleDl ∉ s.rest := by
+  have hi := rconn_inv_run ord ho ls _ s rconn_init_inv hr
+  exact ⟨hi.armed (by omega), hi.act (by omega)⟩
+
+/-- the reader's remaining actions do not touch the deadline, and then it is in Read -/
+theorem drain_keeps (ord : List RAct) : ∀ (n : Nat) (s : RConn), s.rest.length = n → RAct.setIdleDl ∉ s.rest →
+    ∃ s', s.run ord (List.replicate n .readerAct) = some s' ∧ s'.rest = [] ∧ s'.dl = s.dl := by
+  intro n
+  induction n with
+  | zero =>
+    intro s hl _
+    exact ⟨s, rfl, List.eq_nil_of_length_eq_zero hl, rfl⟩
+  | succ n ih =>
+    intro s hl hn
+    cases hr : s.rest with
+    | nil => rw [hr] at hl; cases hl
+    | cons a t =>
+      rw [hr] at hl hn
+      have hne : a ≠ .setIdleDl := fun e => hn (by simp [e])
+      have hnt : RAct.setIdleDl ∉ t := fun m => hn (List.mem_cons_of_mem _ m)
+      have hstep : s.step ord .readerAct = some (s.act a t) := by simp only [RConn.step, hr]
+      have hrest : (s.act a t).rest = t := by cases a <;> rfl
+      have hdl : (s.act a t).dl = s.dl := by cases a <;> first | rfl | exact absurd rfl hne
+      obtain ⟨s', h1, h2, h3⟩ := ih (s.act a t) (by rw [hrest]; simpa using hl) (by rw [hrest]; exact hnt)
+      refine ⟨s', ?_, h2, by rw [h3, hdl]⟩
+      simp only [List.replicate_succ, RConn.run, hstep]
+      exact h1
+
+/-- **Silence closes a reused connection within the waiting-reply timeout**: the
+reader finishes what it has left without touching the deadline, is in Read under
+the waiting-reply deadline, and its expiry closes the connection (which wakes
+the caller: `closeNotify` is a case of its select, a regenerated fact). -/
+theorem reuse_silence_closes (ord : List RAct) (ho : safeRest ord = true) (ls : List RLabel) (s : RConn)
+    (hr : ({} : RConn).run ord ls = some s) (hp : s.cpc = 4) :
+    ∃ s1 s2, s.run ord (List.replicate s.rest.length .readerAct) = some s1 ∧ s1.rest = [] ∧ s1.dl = .short ∧
+      s1.step ord .readerFail = some s2 ∧ s2.closed = true := by
+  obtain ⟨hd, hn⟩ := reuse_parked_is_covered ord ho ls s hr hp
+  obtain ⟨s1, h1, h2, h3⟩ := drain_keeps ord s.rest.length s rfl hn
+  refine ⟨s1, { s1 with closed := true, pooled := false }, h1, h2, by rw [h3, hd], ?_, rfl⟩
+  simp only [RConn.step, h2, ↓reduceIte]
+
+-- witness: with the idle deadline set after the hand-over the next query can be left under it
+example : ((({} : RConn).run [.setIdle, .handOver, .setIdleDl]
+    [.callerTake, .callerInstall, .callerArm, .callerWrite, .readerGot, .readerAct, .readerAct,
+     .callerTake, .callerInstall, .callerArm, .callerWrite, .readerAct]).map (fun s => (s.cpc, s.dl, s.rest))) = some (4, .idle, []) := by decide
+
+/-! ## Part D: the closed flag of PipelineTransport against Close -/
+
+theorem setPc_same (f : Nat → Pc) (i : Nat) (p : Pc) : setPc f i p i = p := by simp [setPc]
+theorem setPc_other (f : Nat → Pc) (i j : Nat) (p : Pc) (h : j ≠ i) : setPc f i p j = f j := by simp [setPc, h]
+
+theorem pt_init_inv : ({} : PT).Inv := by
+  constructor <;> simp
+
+/-- nobody but `i` holds the mutex when `i` does -/
+theorem holder_unique (s : PT) (hh : ∀ i, (s.pcs i = .locked ∨ s.pcs i = .checked ∨ s.pcs i = .inserted) → s.owner = i + 2)
+    (i j : Nat) (hi : s.owner = i + 2) (hj : s.pcs j = .locked ∨ s.pcs j = .checked ∨ s.pcs j = .inserted) : j = i := by
+  have := hh j hj; omega
+
+theorem pt_inv_step (s s' : PT) (l : PLabel) (hi : s.Inv) (hs : s.step true l = some s') : s'.Inv := by
+  obtain ⟨h1, h2, h3, h4, h5, h6⟩ := hi
+  cases l <;> simp only [PT.step, ↓reduceIte] at hs
+  case closeLock =>
+    split at hs
+    · rename_i hc; cases hs
+      obtain ⟨hc0, ho⟩ := hc
+      refine ⟨?_, fun _ => rfl, fun j hj => ?_, h4, h5, h6⟩
+      · constructor
+        · intro h; have := h1.mp h; omega
+        · intro h; simp only at h; omega
+      · have := h3 j hj; omega
+    · cases hs
+  case closeMark =>
+    split at hs
+    · rename_i hc; cases hs
+      have ho := h2 (Or.inl hc)
+      refine ⟨⟨fun _ => by simp, fun _ => rfl⟩, fun _ => ho, h3, fun j hj => ?_, fun _ => rfl, h6⟩
+      have := h3 j (Or.inr hj); omega
+    · cases hs
+  case closeUnlock =>
+    split at hs
+    · rename_i hc; cases hs
+      have ho := h2 (Or.inr hc)
+      refine ⟨⟨fun _ => by simp, fun _ => h1.mpr (by omega)⟩, fun h => by simp at h, fun j hj => ?_, h4, h5, h6⟩
+      have := h3 j hj; omega
+    · cases hs
+  case callerLock i =>
+    split at hs
+    · rename_i ho
+      split at hs
+      · rename_i hp; cases hs
+        refine ⟨h1, fun h => by have := h2 h; omega, fun j hj => ?_, fun j hj => ?_, h5, h6⟩
+        · by_cases e : j = i
+          · subst e; rfl
+          · simp only [setPc_other _ _ _ _ e] at hj; have := h3 j hj; omega
+        · by_cases e : j = i
+          · subst e; simp [setPc_same] at hj
+          · simp only [setPc_other _ _ _ _ e] at hj; exact h4 j hj
+      · cases hs
+    · cases hs
+  case callerCheck i =>
+    split at hs
+    · rename_i hp
+      have hoi := h3 i (Or.inl hp)
+      split at hs
+      · rename_i hcf; cases hs
+        refine ⟨h1, fun h => by have := h2 h; omega, fun j hj => ?_, fun j hj => ?_, h5, h6⟩
+        · by_cases e : j = i
+          · subst e; simp [setPc_same] at hj
+          · simp only [setPc_other _ _ _ _ e] at hj; exact absurd (holder_unique s h3 i j hoi hj) e
+        · by_cases e : j = i
+          · subst e; simp [setPc_same] at hj
+          · simp only [setPc_other _ _ _ _ e] at hj; exact h4 j hj
+      · rename_i hcf; cases hs
+        refine ⟨h1, h2, fun j hj => ?_, fun j hj => ?_, h5, h6⟩
+        · by_cases e : j = i
+          · subst e; exact hoi
+          · simp only [setPc_other _ _ _ _ e] at hj; exact h3 j hj
+        · by_cases e : j = i
+          · subst e; simpa using hcf
+          · simp only [setPc_other _ _ _ _ e] at hj; exact h4 j hj
+    · cases hs
+  case callerInsert i =>
+    split at hs
+    · rename_i hp; cases hs
+      have hoi := h3 i (Or.inr (Or.inl hp))
+      have hcf := h4 i (Or.inl hp)
+      have hc3 : ¬ s.cpc = 3 := fun h => by have := h1.mpr (by omega); rw [hcf] at this; cases this
+      refine ⟨h1, h2, fun j hj => ?_, fun j hj => ?_, fun h => (by rw [hcf] at h; cases h), (by simp [hc3, h6])⟩
+      · by_cases e : j = i
+        · subst e; exact hoi
+        · simp only [setPc_other _ _ _ _ e] at hj; exact h3 j hj
+      · by_cases e : j = i
+        · subst e; exact hcf
+        · simp only [setPc_other _ _ _ _ e] at hj; exact h4 j hj
+    · cases hs
+  case callerUnlock i =>
+    split at hs
+    · rename_i hp; cases hs
+      have hoi := h3 i (Or.inr (Or.inr hp))
+      refine ⟨h1, fun h => by have := h2 h; omega, fun j hj => ?_, fun j hj => ?_, h5, h6⟩
+      · by_cases e : j = i
+        · subst e; simp [setPc_same] at hj
+        · simp only [setPc_other _ _ _ _ e] at hj; exact absurd (holder_unique s h3 i j hoi hj) e
+      · by_cases e : j = i
+        · subst e; simp [setPc_same] at hj
+        · simp only [setPc_other _ _ _ _ e] at hj; exact h4 j hj
+    · cases hs
+
+theorem pt_inv_run (ls : List PLabel) : ∀ (s s' : PT), s.Inv → s.run true ls = some s' → s'.Inv := by
+  induction ls with
+  | nil => intro s s' hi hr; simp only [PT.run, Option.some.injEq] at hr; subst hr; exact hi
+  | cons l ls ih =>
+    intro s s' hi hr
+    simp only [PT.run] at hr
+    cases hs : s.step true l with
+    | none => rw [hs] at hr; cases hr
+    | some s1 => rw [hs] at hr; exact ih s1 s' (pt_inv_step s s1 l hi hs) hr
+
+/-- **PipelineTransport: Close is final.** With the closed flag tested inside
+the critical section that registers a connection, in every interleaving of Close
+with any number of callers: no connection is registered after Close returned,
+and when Close has returned every registered connection has been closed. -/
+theorem close_is_final (ls : List PLabel) (s : PT) (hr : ({} : PT).run true ls = some s) :
+    s.lateInserts = 0 ∧ (s.cpc = 3 → s.openConns = 0) := by
+  have hi := pt_inv_run ls _ s pt_init_inv hr
+  exact ⟨hi.noLate, fun h => hi.noOpen (hi.flag.mpr (by omega))⟩
+
+example : ((({} : PT).run false [.callerCheck 0, .closeLock, .closeMark, .closeUnlock, .callerLock 0, .callerInsert 0, .callerUnlock 0]).map
+    (fun s => (s.cpc, s.openConns, s.lateInserts))) = some (3, 1, 1) := by decide
+
 /-! ## tie to the source: regenerated facts -/
 
 theorem facts_guard :
@@ -224,7 +519,33 @@ theorem facts_guard :
     Gen.Facts.c07ReuseCloseShape = some true ∧ Gen.Facts.c07ReuseClosedRejects = some true ∧ Gen.Facts.c07ReuseDialWaitCoversAll = some true ∧
     Gen.Facts.c07ReuseNewConnAfterCloseRejected = some true ∧ Gen.Facts.c07LazyWaitCoversAll = some true ∧
     Gen.Facts.c07LazyDialBounded = some true ∧ Gen.Facts.c07LazyCloseShape = some true ∧
-    Gen.Facts.c07PipelineCloseShape = some true ∧ Gen.Facts.c07PipelineClosedRejects = some true := by decide
+    Gen.Facts.c07PipelineCloseShape = some true ∧ Gen.Facts.c07PipelineClosedRejects = some true ∧
+    Gen.Facts.c07PipelineClosedCheckedUnderLock = some true ∧
+    (∀ a ∈ [RAct.setIdleDl, .setIdle, .handOver], a ∈ Gen.Facts.c07ReuseReaderOrder.map RAct.ofCode) := by decide
+
+/-! ## the theorems of parts C and D at the regenerated facts -/
+
+/-- the reader's action list as the source has it now -/
+def readerOrder : List RAct := Gen.Facts.c07ReuseReaderOrder.map RAct.ofCode
+
+/-- in reuse.go the idle deadline is set before the connection is put back into the pool, once -/
+theorem reader_order_safe : safeRest readerOrder = true := by decide
+
+theorem reuse_parked_is_covered_src (ls : List RLabel) (s : RConn) (hr : ({} : RConn).run readerOrder ls = some s) (hp : s.cpc = 4) :
+    s.dl = .short ∧ RAct.setIdleDl ∉ s.rest :=
+  reuse_parked_is_covered readerOrder reader_order_safe ls s hr hp
+
+theorem reuse_silence_closes_src (ls : List RLabel) (s : RConn) (hr : ({} : RConn).run readerOrder ls = some s) (hp : s.cpc = 4) :
+    ∃ s1 s2, s.run readerOrder (List.replicate s.rest.length .readerAct) = some s1 ∧ s1.rest = [] ∧ s1.dl = .short ∧
+      s1.step readerOrder .readerFail = some s2 ∧ s2.closed = true :=
+  reuse_silence_closes readerOrder reader_order_safe ls s hr hp
+
+theorem pipe_close_is_final_src (ls : List PLabel) (s : PT)
+    (hr : ({} : PT).run (Gen.Facts.c07PipelineClosedCheckedUnderLock.getD false) ls = some s) :
+    s.lateInserts = 0 ∧ (s.cpc = 3 → s.openConns = 0) := by
+  have h : Gen.Facts.c07PipelineClosedCheckedUnderLock.getD false = true := by decide
+  rw [h] at hr
+  exact close_is_final ls s hr
 
 /-- the transports' own liveness timeouts are "tens of seconds at most" -/
 theorem timeouts_bounded :
@@ -237,5 +558,9 @@ theorem timeouts_bounded :
 example : ((({} : Conn).run [.readerArm, .callerAdd, .callerArm, .readerGotParked, .readerArm, .callerAdd, .callerArm]).map
     (fun s => (s.parked, s.dl, s.rd))) = some (1, .short, .blocked) := by decide
 example : (pipeInit.run pipeProgs [0, 0, 1, 1, 1, 2, 0]).map (·.deadlocked pipeProgs) = some false := by decide
+example : ((({} : RConn).run readerOrder [.callerTake, .callerInstall, .callerArm, .callerWrite, .readerGot, .readerAct, .readerAct,
+    .callerTake, .callerInstall, .callerArm, .callerWrite, .readerAct]).map (fun s => (s.cpc, s.dl, s.rest))) = some (4, .short, []) := by decide
+example : ((({} : PT).run true [.callerLock 0, .closeLock]).isNone, (({} : PT).run true [.callerLock 0, .callerCheck 0, .callerInsert 0, .callerUnlock 0,
+    .closeLock, .closeMark, .closeUnlock, .callerLock 1, .callerCheck 1]).map (fun s => (s.cpc, s.openConns, s.pcs 1))) = (true, some (3, 0, .rejected)) := by decide
 
 end Props.C07
